@@ -120,6 +120,13 @@ class SpreadStepSizesBlockwiseNonMPI(SpreadStepSizesBlockwise):
         if S not in MS:
             return None
 
+        # All steps of a block get the same step size. It is computed once per block, for the first step, because
+        # the computation reads the step sizes of the other steps, which are overwritten below one step at a time.
+        if S is not MS[0]:
+            for i in range(len(S.levels)):
+                S.levels[i].params.dt = self.new_steps_block[i]
+            return None
+
         spread_from_step, restart_at = self.get_step_from_which_to_spread(MS, S)
 
         # Compute the maximum allowed step size based on Tend.
@@ -149,6 +156,7 @@ class SpreadStepSizesBlockwiseNonMPI(SpreadStepSizesBlockwise):
                 )
 
         # spread the step sizes to all levels
+        self.new_steps_block = new_steps
         for i in range(len(S.levels)):
             S.levels[i].params.dt = new_steps[i]
 
